@@ -14,6 +14,23 @@
 //!   Ok / Err, sibling digests supplied through the repository's own
 //!   `set_*fri_mmcs_private_data*` functions). A disagreement in either direction is a violation.
 //!
+//! * tiers: quick = ≤2 matrices (every height 1..32 alone, every ordered height pair over
+//!   {1,2,4,8,16}, pairs with 32, three non-power-of-two vectors); thorough = ≤3 matrices, every
+//!   ordered height pair / triple over {1,2,4,8,16,32}, more width combinations, 14
+//!   non-power-of-two vectors, leaves wider than the W32 rate. Both tiers: all 8 schemes, cap
+//!   heights 0,1,2. No sampling and no state de-duplication: every listed (shape, index, fault)
+//!   is executed on both sides. Shapes run cheapest-first; if the wall-clock budget runs out
+//!   the remaining (largest) shapes are counted in `shapes_cut_by_budget` and `exhaustive` is
+//!   false.
+//! * not verdicts: a shape the repository's API refuses at build time (`unsupported`), a shape
+//!   the native scheme refuses to commit to (`native_commit_refuses`, e.g. an arity-4 tree over
+//!   non-power-of-two heights whose cap is not a power of two) — counted, never violations.
+//!   A native rejection of a native honest opening, or a run in which a verdict never occurs,
+//!   is a machinery error (exit 2).
+//! * violation keys: `<clause>:<scheme>:<fault class>:levels=<distinct padded heights>:cap=<h>:
+//!   <verdict signatures>`; when the honest opening of a (shape, index) is itself rejected the
+//!   consequent fault disagreements at that (shape, index) are folded into `honest_rejected`.
+//!
 //! Additionally the cap multiplexer is driven directly through the hook
 //! `p3_recursion::pcs::mmcs::verif_select_cap_entry` (all cap heights 0..=3, every index, the
 //! right and every wrong expected entry).
@@ -407,7 +424,7 @@ fn dimension_vectors(quick: bool) -> Vec<Vec<(usize, usize)>> {
         }
         // two matrices, every ordered height pair over {1,2,4,8,16}: equal heights × all 16
         // width pairs (one concatenated leaf, every way of straddling the rate), different
-        // heights × 4 width pairs (hashed separately, widths independent)
+        // heights × 3 width pairs (hashed separately, widths independent)
         let hs = [1usize, 2, 4, 8, 16];
         for &h1 in &hs {
             for &h2 in &hs {
@@ -418,20 +435,18 @@ fn dimension_vectors(quick: bool) -> Vec<Vec<(usize, usize)>> {
                         }
                     }
                 } else {
-                    for (w1, w2) in [(1, 3), (3, 9), (8, 1), (9, 8)] {
+                    for (w1, w2) in [(3, 9), (8, 1), (9, 8)] {
                         out.push(vec![(h1, w1), (h2, w2)]);
                     }
                 }
             }
         }
-        // pairs involving height 32: both orders × 2 width pairs, and 32/32 × 4 width pairs
+        // pairs involving height 32: both orders × 1 width pair, and 32/32 × 2 width pairs
         for &h in &hs {
-            for (w1, w2) in [(3, 9), (8, 1)] {
-                out.push(vec![(32, w1), (h, w2)]);
-                out.push(vec![(h, w1), (32, w2)]);
-            }
+            out.push(vec![(32, 3), (h, 9)]);
+            out.push(vec![(h, 8), (32, 1)]);
         }
-        for (w1, w2) in [(1, 3), (8, 8), (9, 8), (3, 9)] {
+        for (w1, w2) in [(1, 3), (9, 8)] {
             out.push(vec![(32, w1), (32, w2)]);
         }
         // non-power-of-two heights admitted by the native scheme (ceil(max/2^k) ladder)
@@ -990,18 +1005,34 @@ fn run_shape<S: Scheme>(eng: &Engine<'_>, shape: &Shape) {
     } else {
         eng.stats.shapes_done.fetch_add(1, Ordering::Relaxed);
     }
-    let mut s = eng.samples.lock().unwrap();
-    if s.len() < 6 && shape.dims.len() >= 2 && shape.cap_height == 1 {
-        let o = &openings[openings.len() - 1];
-        s.push(json!({
-            "shape": shape.show(),
-            "index": openings.len() - 1,
-            "num_roots": num_roots,
-            "siblings": o.siblings.len(),
-            "faults_per_index": faults_of(o).len(),
-            "mmcs_op_ids": fx.op_ids.len(),
-            "circuit_ops": fx.circuit.ops.len(),
-        }));
+    // Samples for the evidence file: for a few mid-sized mixed-height shapes, the honest opening
+    // of the last index and the first fault of every class, with both verdicts, written out.
+    let hs: Vec<usize> = shape.dims.iter().map(|d| d.0).collect();
+    if shape.dims.len() == 2 && hs[0] != hs[1] && shape.max_height() == 8 && shape.cap_height == 1 {
+        let mut s = eng.samples.lock().unwrap();
+        if s.iter().filter(|v| v["scheme"] == shape.cfg.name()).count() == 0 && s.len() < 8 {
+            let index = openings.len() - 1;
+            let o = &openings[index];
+            let mut cases = vec![];
+            let mut seen = std::collections::BTreeSet::new();
+            for f in std::iter::once(Fault::None).chain(faults_of(o)) {
+                if seen.insert(f.class()) {
+                    let (n, c) = evaluate::<S>(&nv, &fx, o, f);
+                    cases.push(json!({"fault": format!("{f:?}"), "native": verdict_str(&n), "circuit": verdict_str(&c)}));
+                }
+            }
+            s.push(json!({
+                "scheme": shape.cfg.name(),
+                "shape": shape.show(),
+                "index": index,
+                "num_roots": num_roots,
+                "proof_siblings": o.siblings.len(),
+                "faults_per_index": faults_of(o).len(),
+                "mmcs_op_id_occurrences": fx.op_ids.len(),
+                "circuit_ops": fx.circuit.ops.len(),
+                "cases": cases,
+            }));
+        }
     }
 }
 
